@@ -73,6 +73,10 @@ func c15Flows() []c15Flow {
 			final: func(s *world.Stack, w *world.World, t string, q bool) []world.Req {
 				return []world.Req{withRedir(flows.Login(s, "B1", U1, P1, false), t, true), {Browser: "B1", Method: "POST", Path: "@follow", Form: map[string]string{"code": "@totp"}}}
 			}},
+		{name: "oauth2-roundtrip+param", modules: []string{"auth", "oauth2"}, queryOnly: true,
+			final: func(s *world.Stack, w *world.World, t string, q bool) []world.Req {
+				return []world.Req{flows.OAuthStart(s, "B1", "google", "cake=yes&redir="+url.QueryEscape(t)), {Browser: "B1", Method: "GET", Path: "@oauth-callback"}}
+			}},
 		{name: "oauth2-roundtrip", modules: []string{"auth", "oauth2"}, queryOnly: true,
 			final: func(s *world.Stack, w *world.World, t string, q bool) []world.Req {
 				return []world.Req{flows.OAuthStart(s, "B1", "google", "redir="+url.QueryEscape(t)), {Browser: "B1", Method: "GET", Path: "@oauth-callback"}}
@@ -226,18 +230,18 @@ func c15Units(tier string) []engine.Unit {
 	var us []engine.Unit
 	for _, flow := range c15Flows() {
 		maxTok := 3
-		if tier == "thorough" && (flow.name == "login" || flow.name == "oauth2-roundtrip") {
+		if tier == "thorough" && (flow.name == "login" || flow.name == "oauth2-roundtrip" || flow.name == "oauth2-roundtrip+param") {
 			maxTok = 4
 		}
 		if tier != "thorough" && flow.name == "login" {
 			maxTok = 3
 		}
 		for _, jsonMode := range []bool{false, true} {
-			if jsonMode && (flow.name == "oauth2-roundtrip" || flow.name == "hijack-roundtrip") {
+			if jsonMode && (strings.HasPrefix(flow.name, "oauth2-roundtrip") || flow.name == "hijack-roundtrip") {
 				continue // browser round trips are form-mode flows
 			}
 			for _, scheme := range []string{"http", "https"} {
-				if scheme == "https" && tier != "thorough" && flow.name != "login" && flow.name != "oauth2-roundtrip" {
+				if scheme == "https" && tier != "thorough" && flow.name != "login" && !strings.HasPrefix(flow.name, "oauth2-roundtrip") {
 					continue
 				}
 				firsts := len(c15Sigma)
